@@ -935,6 +935,71 @@ impl VisitMut for ContinueElim {
     }
 }
 
+/// R16: `let P = loop { .. break V; .. };` (Verus: "complex break expressions") becomes
+///   `let __vx_brk_N; loop { .. { __vx_brk_N = V; break; } .. } let P = __vx_brk_N;`
+/// (deferred initialisation: every exit of the loop assigns first). Only unlabelled `break V` of that very loop are rewritten; a
+/// loop with a label, or a `break V` inside a nested closure, is left alone (and stays unsupported).
+pub struct BreakValue {
+    pub log: Vec<serde_json::Value>,
+    pub n: usize,
+}
+struct BreakRw { id: Ident, count: usize }
+impl VisitMut for BreakRw {
+    fn visit_expr_mut(&mut self, e: &mut Expr) {
+        match e {
+            Expr::ForLoop(_) | Expr::While(_) | Expr::Loop(_) | Expr::Closure(_) => return,
+            _ => {}
+        }
+        visit_mut::visit_expr_mut(self, e);
+        if let Expr::Break(b) = e {
+            if b.label.is_none() {
+                if let Some(v) = b.expr.take() {
+                    let id = &self.id;
+                    self.count += 1;
+                    *e = parse_quote!({ #id = #v; break; });
+                }
+            }
+        }
+    }
+}
+impl VisitMut for BreakValue {
+    fn visit_block_mut(&mut self, b: &mut Block) {
+        visit_mut::visit_block_mut(self, b);
+        let old = std::mem::take(&mut b.stmts);
+        for st in old {
+            if let Stmt::Local(loc) = &st {
+                if let Some(init) = &loc.init {
+                    if init.diverge.is_none() {
+                        if let Expr::Loop(lp) = &*init.expr {
+                            if lp.label.is_none() {
+                                let id = Ident::new(&format!("__vx_brk_{}", self.n), Span::call_site());
+                                let mut body = lp.body.clone();
+                                let mut rw = BreakRw { id: id.clone(), count: 0 };
+                                for s2 in body.stmts.iter_mut() { rw.visit_stmt_mut(s2); }
+                                if rw.count > 0 {
+                                    self.n += 1;
+                                    self.log.push(json!({"rule": "R16", "src_line": line_of(lp.loop_token.span), "before": "`let P = loop { .. break V; .. };`", "after": format!("`let {id}; loop {{ .. {{ {id} = V; break; }} .. }} let P = {id};`")}));
+                                    let mut lp2 = lp.clone();
+                                    lp2.body = body;
+                                    let decl: Stmt = parse_quote!(let #id;);
+                                    let lstmt = Stmt::Expr(Expr::Loop(lp2), None);
+                                    let mut l2 = loc.clone();
+                                    l2.init = Some(LocalInit { eq_token: init.eq_token, expr: Box::new(parse_quote!(#id)), diverge: None });
+                                    b.stmts.push(decl);
+                                    b.stmts.push(lstmt);
+                                    b.stmts.push(Stmt::Local(l2));
+                                    continue;
+                                }
+                            }
+                        }
+                    }
+                }
+            }
+            b.stmts.push(st);
+        }
+    }
+}
+
 /// R11c: Option-combinator desugaring (opt-in per function, because the receiver type is not known syntactically):
 ///   R.and_then(|p| B) -> match R { Some(p) => B, None => None }      R.map(|p| B) -> match R { Some(p) => Some(B), None => None }
 ///   R.map_err(|p| B) -> match R { Ok(v) => Ok(v), Err(p) => Err(B) }
